@@ -270,7 +270,8 @@ func runC10(c *Check) {
 	})
 
 	c.Rule("C10.STALE", func() { checkStaleMaster(c) })
-	c.Rule("C10.UNFENCE", func() { checkMasterOnline(c) })
+	c.Rule("C10.UNFENCE", func() { checkMasterOnline(c); extraC10Unfence(c) })
+	extraC10(c)
 }
 
 // StringMapLiteralIdents evaluates `var X = map[K]V{ident: ident}` to identifier names.
